@@ -213,6 +213,37 @@ func genC11(p *plan.Plan, r *plan.Rng, tier string) {
 			}
 		}
 	}
+	// a stream that ends inside an array (right behind an element, or behind a
+	// comma), then nested arrays of the same element type decoded elsewhere
+	if r.Chance(1, 4) {
+		trunc := []string{`[1,[2,3],4`, `[1,2`, `[[1,2],[3`, `[[[1]],[[2`, `[{"Children":[{"Children":[`, `[1,`, `[[1,2],`}
+		nested := []string{`[[3,[3,4]],[7,[7,8]]]`, `[[[1,2],[3]],[[4]],[]]`, `[[1,[2,[3,[4]]]],[5]]`}
+		for k := r.Range(1, 3); k > 0; k-- {
+			t := []string{"Iface", "SliceIface", "SliceSlice", "Iface"}[r.Intn(4)]
+			doc := trunc[r.Intn(len(trunc))]
+			s := plan.Session{ID: id("t")}
+			rd := &plan.Reader{Data: []byte(doc)}
+			if r.Bool() {
+				rd.Del = []plan.Deliver{{N: len(doc) - r.Intn(2)}}
+			}
+			s.Steps = append(s.Steps, plan.Step{Op: "dec_new", H: "td", Reader: rd}, plan.Step{Op: "dec_decode", H: "td", T: t})
+			p.Sessions = append(p.Sessions, s)
+		}
+		for k := r.Range(1, 3); k > 0; k-- {
+			t := []string{"Iface", "SliceIface", "Iface"}[r.Intn(3)]
+			doc := nested[r.Intn(len(nested))]
+			if r.Bool() {
+				p.Sessions = append(p.Sessions, one(id("t"), plan.Step{Op: "unmarshal", T: t, Doc: []byte(doc)}))
+			} else {
+				p.Sessions = append(p.Sessions, plan.Session{ID: id("t"), Steps: []plan.Step{
+					{Op: "dec_new", H: "nd", Reader: &plan.Reader{Data: []byte(doc)}}, {Op: "dec_decode", H: "nd", T: t}}})
+			}
+		}
+		if r.Bool() {
+			ti := lookupType("Recursive")
+			p.Sessions = append(p.Sessions, one(id("t"), plan.Step{Op: "unmarshal", T: "Recursive", Doc: reshape(stdDoc(ti, int64(r.U64()>>8)), r, true, false)}))
+		}
+	}
 	// the same long object graph encoded again after an encode of it failed
 	// half-way (a value handle shared by two sessions)
 	if r.Chance(1, 5) {
